@@ -20,7 +20,7 @@ CLAIM = dict(
          "prefix of the request list. The models are tied to the code on every run: ~550 generated documents "
          "(package references in every syntactic position, with/without versions, two versions of one name, own-package "
          "references, self-new, unknown packages, wrong kinds) are parsed by the extracted parser model and by the real "
-         "parser; packages() is compared key by key with spans; each document is resolved against a 12-package library "
+         "parser; packages() is compared key by key with spans; each document is resolved against a 14-package library "
          "(WIT packages and components) with ALL packages, with ONLY the discovered ones and with each library package "
          "removed in turn (which yields the set of keys actually looked up, through the public API alone); the optional "
          "cfg(wac_verif) request log gives the exact call sequence.",
@@ -96,6 +96,9 @@ POSITIONS = [
     ("new in export", r"^export \(*new "),
     ("new nested in named argument", r"\w\"?: new "),
     ("new nested in parentheses", r"\w\"?: \(+new "),
+    ("named new after a spread argument", r"\.\.\.\w+,[^{}]*\w\"?: \(*new "),
+    ("named new after a non-final fill", r"\.\.\., [^{}]*\w\"?: \(*new "),
+    ("inferred argument", r"[{,] \w+[,}] | \w+ \}"),
     ("versioned reference", r"@\d"),
     ("own-package path", None),
 ]
@@ -126,6 +129,17 @@ def run(res, tier, seed, replay):
     if rc != 0:
         res.violation(dict(kind="machinery-error", what="harness run failed", log=out[-3000:]), no_input=True)
         return
+    corpus = os.path.join(vlib.ROOT, "corpus", PID, "cases.txt")
+    if os.path.exists(corpus) and not replay:
+        # regression documents run first: the harness in replay mode, outputs prepended
+        rc, out = vlib.sh(f"{hb} {tier} {seed} {P('corpus_cases.txt')} {P('corpus_impl.txt')} {corpus}", timeout=600)
+        if rc != 0:
+            res.violation(dict(kind="machinery-error", what="harness run on the corpus failed", log=out[-3000:]), no_input=True)
+            return
+        for a, b in ((P("cases.txt"), P("corpus_cases.txt")), (P("impl.txt"), P("corpus_impl.txt"))):
+            body = "".join(l + "\n" for l in open(b).read().split("\n")[:-1] if not l.startswith(("lib\t", "LIB")))
+            body += open(a).read()
+            open(a, "w").write(body)
     rc, out = vlib.sh(f"{os.path.join(vlib.BUILD, 'c17', 'driver')} < {P('cases.txt')} > {P('model.txt')}", timeout=3000)
     if rc != 0:
         res.violation(dict(kind="machinery-error", what="driver run failed", log=out[-3000:]), no_input=True)
@@ -244,13 +258,17 @@ def run(res, tier, seed, replay):
         logged_requests_total=n_logged, resolutions_succeeding=n_resolved_ok, succeeded_with_exact_request_set=n_exact,
         outcomes_with_all_packages=outcomes, positions_exercised=pos_counts,
         distinct_nontrivial=len(nontrivial),
-        rule="34 hand-written documents (one per syntactic position, version combinations, own-package references, "
-             "self-new at depth, unknown packages, wrong kinds) + documents generated from a seeded PRNG: 1-8 statements "
+        rule="corpus/C17 (named `new` after spread / non-final fill / inferred arguments, incl. self-new) + 42 hand-written "
+             "documents (one per syntactic position, version combinations, own-package references, "
+             "self-new at depth, unknown packages, wrong kinds, all four argument forms in one list) + documents generated from a seeded PRNG: 1-8 statements "
              "among interface / world / type / let / export / import, each package reference drawn from a 12-package "
-             "library (6 WIT packages incl. three versions of one name and a pre-release+build version, 6 components "
-             "with 0-2 instance imports incl. two versions of a name) or, with small probability, the own package, a "
+             "library (6 WIT packages incl. three versions of one name and a pre-release+build version, 8 components "
+             "with 0-2 instance imports incl. two versions of a name, one importing the function the others export so that "
+             "spread arguments can succeed) or, with small probability, the own package, a "
              "wrong kind, a missing export, an unknown package/version; `new` nested up to depth 3 through named "
-             "arguments (identifier and string names) and 0-2 levels of parentheses; the own package name is sometimes "
+             "arguments (identifier and string names) and 0-2 levels of parentheses; argument lists are shuffled and spread, "
+             "inferred and NON-final fill arguments are inserted at random positions (one document in four uses them "
+             "heavily), so named arguments with nested `new` follow every other form; the own package name is sometimes "
              "a library name. Each document: packages(), resolve+encode with all packages, with the discovered ones "
              "only, and with each library package removed. non-trivial = distinct source text that parses and whose "
              "discovery reports at least one key or rejects a self-instantiation",
